@@ -50,8 +50,9 @@ def roundRobin {α : Type} (rows : List (List α)) : List α := roundRobinAux (m
 
 /-! ### Deviation flags -/
 
-/-- `spec`: all off.  Both deviations were repaired in /repo (d714329, 1acf5fd): the code today
-is `nestSpec`; `nestOld` is the code before those commits and is kept for the refutations. -/
+/-- Deviation flags of nesting; `nestSpec` = all off.  `ampViaUnify` and `suffixUnwrapPanics`
+were repaired in /repo (d714329, 1acf5fd); `appendIdLastWins` is open.  `nestAsis` is the code
+today, `nestOld` the code before those commits (kept for the refutations). -/
 structure NestQuirks where
   /-- (before d714329) selector.rs `resolve_ref`: the substituted compound is passed through
   `Selector::unify` with an empty compound, which de-duplicates classes and placeholders,
@@ -62,9 +63,14 @@ structure NestQuirks where
   that cannot take the suffix is a panic instead of the error
   `Parent ".." is incompatible with this selector.` -/
   suffixUnwrapPanics : Bool := false
+  /-- compound.rs `CompoundSelector::append` prints parent and suffix and parses the text again;
+  the parser's `result.id = Some(id)` keeps only the last `#id`, so `#a { &#b }` gives `#b`
+  instead of `#a#b`.  NOTE the default is `true` (= the code): record literals written before
+  this flag existed (`{ ampViaUnify := … }` in other families) keep denoting the code. -/
+  appendIdLastWins : Bool := true
   deriving Repr, DecidableEq
 
-def nestSpec : NestQuirks := {}
+def nestSpec : NestQuirks := { appendIdLastWins := false }
 /-- the code as it is today -/
 def nestAsis : NestQuirks := {}
 /-- the code before d714329 / 1acf5fd -/
@@ -122,17 +128,42 @@ def Compound.appendSuffix (a : Compound) (sfx : List Char) : Option Compound :=
 `self`'s simple selectors followed by `other`'s; an element type on `other` can only be a
 name fragment glued to `self`'s last simple selector; a later `#id` overwrites.
 An element type `*` hidden by the printer (`*.a` prints `.a`) is lost by the round trip. -/
-def Compound.append (a b : Compound) : Option Compound :=
+def mergeId (keepIds : Bool) : Option (List Char) → Option (List Char) → Option (List Char)
+  | some x, some y => if keepIds then some (y ++ '#' :: x) else some x
+  | some x, none => some x
+  | none, i => i
+
+/-- `other`'s simple selectors behind the (suffix-extended) `self` -/
+def Compound.mergeInto (keepIds : Bool) : Option Compound → Compound → Option Compound
+  | none, _ => none
+  | some (.mk _ e p c i ats ps), .mk _ _ p' c' i' ats' ps' =>
+    some (.mk false e (p ++ p') (c ++ c') (mergeId keepIds i' i) (ats ++ ats') (ps ++ ps'))
+
+def Compound.appendWith (keepIds : Bool) (a b : Compound) : Option Compound :=
   let a1 : Compound := match a with
     | .mk bk e p c i ats ps =>
       .mk bk (match e with | some e => if elemShown e p c i ps.length then some e else none | none => none) p c i ats ps
   let a2 : Option Compound := match b.elem with
     | none => some a1
     | some sfx => a1.appendSuffix sfx
-  match a2, b with
-  | none, _ => none
-  | some (.mk _ e p c i ats ps), .mk _ _ p' c' i' ats' ps' =>
-    some (.mk false e (p ++ p') (c ++ c') (match i' with | some x => some x | none => i) (ats ++ ats') (ps ++ ps'))
+  Compound.mergeInto keepIds a2 b
+
+theorem Compound.mergeInto_id_none (k k' : Bool) (a2 : Option Compound) (b : Compound) (h : b.id = none) :
+    Compound.mergeInto k a2 b = Compound.mergeInto k' a2 b := by
+  cases b with
+  | mk b2 e2 p2 c2 i2 a2' ps2 =>
+    simp only [Compound.id] at h
+    subst h
+    cases a2 with
+    | none => rfl
+    | some r => cases r; rfl
+
+/-- the code: the re-parse keeps the last `#id` only (`keepIds = false`).  `keepIds = true` is
+the specification: both ids stay, written `#a#b` (held as the id text `a#b`). -/
+def Compound.append (a b : Compound) : Option Compound := Compound.appendWith false a b
+
+@[simp] theorem Compound.appendWith_false (a b : Compound) :
+    Compound.appendWith false a b = Compound.append a b := rfl
 
 /-! ### `CompoundSelector::default().unify(x)` as reached from `resolve_ref` -/
 
@@ -155,7 +186,7 @@ def Compound.unifyEmpty (o : Compound) : Option Compound :=
 `Selector{rel_of: s.rel_of, compound: default}.unify(Selector{rel_of: None, compound:
 s.compound.append(c)})`.  `spec`: `s` with its last compound replaced by the appended one. -/
 def resolveOne (q : NestQuirks) (s : Selector) (c : Compound) : List Selector :=
-  match s.compound.append c with
+  match Compound.appendWith (!q.appendIdLastWins) s.compound c with
   | none => []
   | some ap =>
     if q.ampViaUnify then
